@@ -13,6 +13,12 @@
     P [portable=1] | <hex>         what the braced-parameter lexer makes of `${<chars>`
     R <state>* raw=<0|1> n=<k> [d=<hex char>] | <stdin hex>
                                    `read [-r] [-d c] v1 … vk` on the given standard input
+    T ctx=<front|every> n=<index> | <word>
+                                   `Word::parse_tilde_front` / `parse_tilde_everywhere_after(index)` on the word as lexed
+                                   (units L B S Q D[ ] $p; `~` still a literal); observation: the resulting word
+    H ctx=<op> <state>* | <phrase> [;; <phrase>]
+                                   direct `Phrase` API: op append / soften (`for_each_char_mut` with `switch::attribute`'s
+                                   function) / join (`ifs_join`) / fields; phrase := C<char> | f<field> | F<field>,… | F.
     WS                             the set of white-space code points (tie to Rust `char::is_whitespace`)
 
     state := NAME=s<hex> | NAME=a<n>(:<hex>)* | NAME=U | !NAME=… (read-only) | nu=<0|1> | st=<n>
@@ -22,7 +28,7 @@
     word  := unit*
     unit  := L<hex> | B<hex> | S<hex> | Q<hex> ($'…', unquoted content) | D[ tunit* ] | tunit
            | T<hex name> (tilde prefix `~name`, not followed by a slash) | T/<hex name> (followed by a slash)
-    tunit := L<hex> | B<hex> | $<param> | {<param> modifier }
+    tunit := L<hex> | B<hex> | $<param> | {<param> modifier } | A[ tunit* ] (arithmetic expansion `$((…))`)
     modifier := ε | len | sw[:](-|=|?|+) unit* | tr(#|##|%|%%) unit*
     param := name | @ | * | # | ? | - | $ | ! | 0 | <digits> (positional, `00` = index 0)
 
@@ -130,6 +136,11 @@ mutual
     else if tok.startsWith "B" then do
       let c ← hexChar (tok.drop 1).toString
       some (.bs c, rest)
+    else if tok = "A[" then do
+      let (ts, rest) ← parseTUnits rest
+      match rest with
+      | "]" :: rest => some (.arith (mkText ts), rest)
+      | _ => none
     else if tok.startsWith "$" then do
       let p ← parseParam (tok.drop 1).toString
       some (.param p .none, rest)
@@ -244,12 +255,33 @@ def showVacancy : Vacancy → String
   | .valuelessArray => "noelems"
   | .emptyValueArray => "emptyelem"
 
+def showArithErr : ArithErr → String
+  | .syntax .tokenError => "token"
+  | .syntax .incompleteExpression => "incomplete"
+  | .syntax .missingOperator => "missingop"
+  | .syntax .unclosedParenthesis => "unclosedparen"
+  | .syntax .questionWithoutColon => "qnocolon"
+  | .syntax .colonWithoutQuestion => "colonnoq"
+  | .syntax .invalidOperator => "invalidop"
+  | .syntax .fuel => "model"
+  | .nonPortable => "nonportable"
+  | .eval .invalidVariableValue => "badvalue"
+  | .eval .overflow => "overflow"
+  | .eval .divisionByZero => "divzero"
+  | .eval .leftShiftingNegative => "lshiftneg"
+  | .eval .reverseShifting => "revshift"
+  | .eval .assignmentToValue => "assignvalue"
+  | .eval _ => "model"
+  | .model => "model"
+
 def showErr : Err → String
   | .unsetParameter => "unset"
   | .vacant v none => s!"vacant:{showVacancy v}:default"
   | .vacant v (some m) => s!"vacant:{showVacancy v}:m{encChars m}"
   | .nonassignable v => s!"nonassignable:{showVacancy v}"
   | .readOnly v => s!"readonly:{showVacancy v}"
+  | .arith e => s!"arith:{showArithErr e}"
+  | .arithReadOnly => "readonly:none"
 
 def showFields (fs : List (List Char)) : String :=
   s!"n={fs.length} f=" ++ (if fs.isEmpty then "." else ",".intercalate (fs.map encChars))
@@ -372,6 +404,92 @@ def obsP (portable : Bool) (src : List Char) : String :=
       | .trim side long w => [s!"tr{side}{if long then side.toString else ""}"] ++ litTokens w
     "ok:" ++ " ".intercalate (["{" ++ String.ofList b.id] ++ m ++ ["}"] ++ litTokens b.rest)
 
+/-! tilde-prefix parsing cases (`T`): words of simple units only -/
+
+def showParamTok : Param → String
+  | .var n => n | .at => "@" | .star => "*" | .num => "#" | .question => "?" | .zero => "0"
+  | .hyphen => "-" | .dollar => "$" | .bang => "!" | .pos n => toString n
+
+def showTUnitSimple : TextUnit → String
+  | .lit c => "L" ++ encChars [c]
+  | .bs c => "B" ++ encChars [c]
+  | .param p .none => "$" ++ showParamTok p
+  | _ => "?"
+
+def textToList : Text → List TextUnit
+  | .nil => []
+  | .cons u t => u :: textToList t
+
+def showUnitSimple : WordUnit → String
+  | .unq u => showTUnitSimple u
+  | .sq s => "S" ++ encChars s
+  | .dsq s => "Q" ++ encChars s
+  | .tilde n sl => "T" ++ (if sl then "/" else "") ++ encChars n
+  | .dq t => " ".intercalate (["D["] ++ (textToList t).map showTUnitSimple ++ ["]"])
+
+/-- `T ctx=<front|every> n=<index> | <word>`: `parse_tilde_front` / `parse_tilde_everywhere_after(index)` on the lexed word -/
+def runT (mode : String) (idx : Nat) (w : Word) : String :=
+  let us := w.toList
+  let r := if mode = "front" then parseTildeFront us else parseTildeEverywhereAfter idx us
+  " ".intercalate (r.map showUnitSimple)
+
+/-! direct `Phrase` API cases (`H`) -/
+
+def parseHexNat (s : String) : Option Nat :=
+  s.toList.foldlM (fun n c =>
+    if c.isDigit then some (n * 16 + (c.toNat - 48))
+    else if 'a' ≤ c ∧ c ≤ 'f' then some (n * 16 + (c.toNat - 87)) else none) 0
+
+/-- `<code point hex><l|h|s><0..3>` -/
+def parseAttrChar (t : String) : Option AttrChar :=
+  match t.toList.reverse with
+  | fl :: o :: revHex =>
+    let origin : Option Origin := match o with | 'l' => some .literal | 'h' => some .hardExpansion | 's' => some .softExpansion | _ => none
+    let bits := fl.toNat - 48
+    match origin, parseHexNat (String.ofList revHex.reverse) with
+    | some og, some n =>
+      if bits < 4 ∧ revHex ≠ [] then
+        some { value := Char.ofNat n, origin := og, isQuoted := bits % 2 == 1, isQuoting := bits / 2 == 1 }
+      else none
+    | _, _ => none
+  | _ => none
+
+def parseAttrField (t : String) : Option (List AttrChar) :=
+  if t = "-" then some [] else (t.splitOn "_").mapM parseAttrChar
+
+/-- `C<char>` | `f<field>` | `F<field>,…` (`F.` = no field) -/
+def parsePhrase (t : String) : Option Phrase :=
+  if t.startsWith "C" then (parseAttrChar (t.drop 1).toString).map .char
+  else if t.startsWith "f" then (parseAttrField (t.drop 1).toString).map .field
+  else if t = "F." then some (.full [])
+  else if t.startsWith "F" then (((t.drop 1).toString.splitOn ",").mapM parseAttrField).map .full
+  else none
+
+def showPhrase : Phrase → String
+  | .char c => "C" ++ showAttrChar c
+  | .field f => "f" ++ (if f.isEmpty then "-" else "_".intercalate (f.map showAttrChar))
+  | .full fs => "F" ++ showAttrFields fs
+
+/-- `H op=<append|soften|join|fields> <state>* | <phrase> [;; <phrase>]`: the operation on phrases of explicit shape.
+    Observation: the resulting phrase WITH its shape (`join`: the field); Spec column: the operation on the
+    denotations (`joinFields`, `soften`, `joinBySep`) compared with the denotation of the result. -/
+def runH (op : String) (env : Env) (ps : List Phrase) : String :=
+  let verdict := fun (b : Bool) => if b then "ok" else "FAIL:denotation"
+  match op, ps with
+  | "append", [a, b] =>
+    let r := a.append b
+    showPhrase r ++ "\t" ++ verdict (r.toFields == joinFields a.toFields b.toFields)
+  | "soften", [a] =>
+    let r := reattribute a
+    showPhrase r ++ "\t" ++ verdict (r.toFields == soften a.toFields)
+  | "join", [a] =>
+    let r := a.ifsJoin env
+    showAttrFields [r] ++ "\t" ++ verdict (r == joinBySep env a.toFields)
+  | "fields", [a] =>
+    let fs := a.toFields
+    s!"n={fs.length} {showAttrFields fs} rq={showFields (fs.map removeQuotesAndStrip)}" ++ "\t-"
+  | _, _ => "bad-case\t-"
+
 def showWs : String :=
   ",".intercalate (whitespaceTable.map (fun r => s!"{r.1}-{r.2}"))
 
@@ -399,6 +517,14 @@ def runLine (line : String) : String :=
             | some a, some b =>
               obsW (showInitial false ro.ctx env ws) a ++ "\t=" ++ obsW (showInitial true ro.ctx env ws) b
             | _, _ => "bad-case\t-"
+        else if kind = "T" then
+          match parseWord (words r) with
+          | some w => runT ro.ctx ro.n w ++ "\t-"
+          | none => "bad-case\t-"
+        else if kind = "H" then
+          match ((r.splitOn ";;").map (fun x => parsePhrase x.trimAscii.toString)).mapM id with
+          | some ps => runH ro.ctx env ps
+          | none => "bad-case\t-"
         else if kind = "P" then
           match decChars r with
           | none => "bad-case\t-"
